@@ -97,9 +97,10 @@ G_ExtOK == Live => ExtOK
 G_LogicOK == Live => LogicOK
 G_ShiftOK == Live => ShiftOK
 G_MulOK == Live => MulOK
-G_DivOK == Live => DivOK
-G_DivRelOK == Live => DivRelOK
-G_SDivRelOK == Live => SDivRelOK
+\* the carry-in c does not occur in the division checks: evaluate them for one value of c only (halves the dominant cost)
+G_DivOK == (Live /\ c = 0) => DivOK
+G_DivRelOK == (Live /\ c = 0) => DivRelOK
+G_SDivRelOK == (Live /\ c = 0) => SDivRelOK
 G_ParityOK == Live => ParityOK
 Inv == AddOK /\ SubOK /\ NegOK /\ NotOK /\ CmpOK /\ ExtOK /\ LogicOK /\ ShiftOK /\ MulOK /\ DivOK /\ ParityOK
 =============================================================================
